@@ -21,6 +21,12 @@
  *        the same questions about its peer ("sq=").  Every answer must be the verdict for (certificate,
  *        queried name) alone - whatever servername, verify_name setting and handshake state are - and 0
  *        when no peer certificate was recorded (client handshake refused).
+ *   noise <1|2|3>                              -> "ok"  an unrelated failing library call in this thread that
+ *                                                 leaves entries in the OpenSSL error queue (1: client context
+ *                                                 whose CA file is missing, tls_connect_fds fails; 2: PEM parse
+ *                                                 of garbage; 3: ERR_raise directly).  Frame condition: no later
+ *                                                 verdict may depend on it.  "#case" clears the queue.  The hsq
+ *                                                 flag e injects noise 1..3 between handshake and the queries.
  *   hsr  <mode> <script> <entry>... name:<hex> -> "calls=<res>,<res>,..."  one connection, the calls of
  *                                                 <script> (1..8 letters: h = tls_handshake, w = tls_write of
  *                                                 1 byte, r = tls_read of 1 byte) are made one after the other
@@ -290,6 +296,25 @@ static int drive_call(char what, struct tls *cli, struct tls *sconn, int *sdone,
 
 /* pcli != NULL: use (and keep) this client context instead of a fresh one.
  * script != NULL: hsr op (see top of file) instead of the single handshake */
+static void make_noise(int k)
+{
+	if (k == 1) {
+		struct tls *c = tls_client();
+		cfg_init();
+		tls_configure(c, g_bad_cfg);
+		(void)tls_connect_fds(c, 0, 0, "noise.example");
+		usual_tls_free(c);
+	} else if (k == 2) {
+		static const char junk[] = "-----BEGIN CERTIFICATE-----\nnot base64 at all!\n-----END CERTIFICATE-----\n";
+		BIO *b = BIO_new_mem_buf(junk, -1);
+		X509 *x = PEM_read_bio_X509(b, NULL, NULL, NULL);
+		X509_free(x);
+		BIO_free(b);
+	} else {
+		ERR_raise(ERR_LIB_X509V3, ERR_R_PASSED_INVALID_ARGUMENT);
+	}
+}
+
 static int g_via_servername;	/* set by the hsn op for the next do_handshake */
 static const char *g_hsq_flags;	/* set by the hsq op for the next do_handshake */
 static char **g_hsq_q;		/* queried names */
@@ -429,6 +454,10 @@ connected:
 		int i;
 		const char *cls = err_class(tls_error(cli));
 		printf("hs=%s err=%s q=", !cdone ? "stuck" : cfail ? "fail" : "ok", cls);
+		if (strchr(hsq, 'e')) {
+			make_noise(1 + (g_hsq_nq % 3));
+			make_noise(3);
+		}
 		for (i = 0; i < g_hsq_nq; i++)
 			printf("%s%d", i ? "," : "", tls_peer_cert_contains_name(cli, g_hsq_q[i]));
 		if (strchr(hsq, 'm')) {
@@ -558,7 +587,13 @@ int main(void)
 	while ((line = hc_line()) != NULL) {
 		int n;
 
+		if (strncmp(line, "noise ", 6) == 0 && strlen(line) == 7 && line[6] >= '1' && line[6] <= '3') {
+			make_noise(line[6] - '0');
+			puts("ok");
+			continue;
+		}
 		if (strcmp(line, "#case") == 0) {
+			ERR_clear_error();
 			pcli_drop();
 			puts("#case");
 			continue;
@@ -649,8 +684,8 @@ int main(void)
 				/* w[2] = flags; q:<hex> words are taken out of the entry list */
 				int k, j = 2;
 				qflags = w[2];
-				if (n < 5 || strlen(qflags) < 1 || strlen(qflags) > 4 ||
-				    strspn(qflags, "vnsftm") != strlen(qflags)) { puts("bad-op"); continue; }
+				if (n < 5 || strlen(qflags) < 1 || strlen(qflags) > 5 ||
+				    strspn(qflags, "vnsftme") != strlen(qflags)) { puts("bad-op"); continue; }
 				for (k = 3; k < n; k++) {
 					if (strncmp(w[k], "q:", 2) == 0) {
 						uint8_t *qb = NULL;
